@@ -163,7 +163,7 @@ func effectsCmd(args []string) error {
 		os.MkdirAll(filepath.Join(proj, "sub", "deep"), 0o755)
 		os.WriteFile(filepath.Join(home, "outside.txt"), []byte("o"), 0o644)
 		os.WriteFile(filepath.Join(home, "w", "sibling.txt"), []byte("s"), 0o644)
-		for _, f := range []string{"dep.txt", "a.txt", "out.bin", "x.o", "sub/deep/file.go", ".gitignore", "sub/.gitignore"} {
+		for _, f := range []string{"dep.txt", "a.txt", "out.bin", "x.o", "sub/deep/file.go", ".gitignore", "sub/.gitignore", "sub/deep/.gitignore"} {
 			if r.Intn(2) == 0 {
 				os.WriteFile(filepath.Join(proj, f), []byte("data "+f), 0o644)
 			}
@@ -266,6 +266,7 @@ func effectsCmd(args []string) error {
 		hasClean := strings.Contains(src, "task clean(")
 		hasDefault := strings.Contains(src, "default(")
 		_, cwdSpokErr := os.Stat(filepath.Join(cwd, "spokfile"))
+		oldIgnore, oldIgnoreErr := os.ReadFile(filepath.Join(cwd, ".gitignore"))
 		before := hashTree(home)
 		cmd := exec.Command(*spok, argv...)
 		cmd.Dir = cwd
@@ -349,6 +350,13 @@ func effectsCmd(args []string) error {
 			if !allowed(p) {
 				st.OracleFail["C19"]++
 				fmt.Fprintf(bo, "C19 %s `spok %s` (from %s) changed %s, which this action may not touch\n", strings.ReplaceAll(cs, " ", "_"), strings.Join(argv, " "), cwdRel, p)
+			}
+		}
+		// --init APPENDS to .gitignore: what the file held stays where it was
+		if has("i") && oldIgnoreErr == nil {
+			if now, err := os.ReadFile(filepath.Join(cwd, ".gitignore")); err != nil || !bytes.HasPrefix(now, oldIgnore) {
+				st.OracleFail["C19"]++
+				fmt.Fprintf(bo, "C19 %s `spok %s` (from %s): .gitignore held %q before and holds %q now, its old content is no longer there\n", strings.ReplaceAll(cs, " ", "_"), strings.Join(argv, " "), cwdRel, string(oldIgnore), string(now))
 			}
 		}
 		if len(st.Samples) < 5 && len(changed) > 0 && k%53 == 1 {
